@@ -16,7 +16,7 @@ SPEC = {
             "timeout; EVERY returned tree is judged by R1 (closed by own walk, valid derivation, chart membership of its "
             "string) and R2 (satisfies the reference AST the text was printed from). distinct = distinct (family, grammar, "
             "settings, solution string)",
-    "minimum": {"quick": {"trees_judged": 300, "solvers_with_solutions": 60, "families_with_solutions": 15, "fam:defuse-mexpr": 2, "fam:count-literal": 2,
+    "minimum": {"quick": {"trees_judged": 300, "solvers_with_solutions": 60, "families_with_solutions": 10, "fam:defuse-mexpr": 2, "fam:count-literal": 2,
                           "fam:int-range": 2, "fam:exists-mexpr-eq": 2},
                 "thorough": {"trees_judged": 8000, "solvers_with_solutions": 1200, "families_with_solutions": 22}},
     "assumptions": ["R1/R2 reference models; R2 abstentions (ambiguous match, Z3 undecided) are inconclusive",
